@@ -1,6 +1,7 @@
 package crypto
 
 import (
+	"encoding/binary"
 	"slices"
 
 	"github.com/relab/hotstuff"
@@ -28,11 +29,14 @@ func NewMultiSorted[T Signature](sigs ...T) Multi[T] {
 	return Multi[T](sigs)
 }
 
-// ToBytes returns the object as bytes.
+// ToBytes returns the object as bytes: each signature's bytes preceded by their length, so that the
+// result determines where one signer's signature ends and the next one begins.
 func (sig Multi[T]) ToBytes() []byte {
 	var b []byte
 	for _, signature := range sig {
-		b = append(b, signature.ToBytes()...)
+		s := signature.ToBytes()
+		b = binary.LittleEndian.AppendUint32(b, uint32(len(s)))
+		b = append(b, s...)
 	}
 	return b
 }
